@@ -95,3 +95,70 @@ def flows_from(expr, fn, pred, depth=6):
 
 def loop_exits(lp, kinds=(ast.Break, ast.Return)):
     return [x for x in walk_body(lp.body) if isinstance(x, kinds)]
+
+
+def paths(stmts, limit=4000):
+    """Acyclic paths through a structured statement list (If / Try bodies / jumps; inner loops are taken zero or one time).
+    Each path is (trail, end): trail = [('cond', text, polarity) | ('stmt', node)], end in fall/continue/break/return/raise."""
+    from .model import _flatten_atom
+
+    def seq(body):
+        res = [([], "fall")]
+        for st in body:
+            nxt = []
+            for trail, end in res:
+                if end != "fall":
+                    nxt.append((trail, end))
+                    continue
+                for t2, e2 in one(st):
+                    nxt.append((trail + t2, e2))
+            res = nxt
+            if len(res) > limit:
+                raise ValueError("too many paths")
+        return res
+
+    def conds(test, pol):
+        out = []
+        _flatten_atom(test, pol, out)
+        return [("cond", U(e), p) for e, p in out]
+
+    def one(st):
+        if isinstance(st, ast.If):
+            a = [(conds(st.test, True) + t, e) for t, e in seq(st.body)]
+            b = [(conds(st.test, False) + t, e) for t, e in seq(st.orelse)]
+            return a + b
+        if isinstance(st, ast.Continue):
+            return [([], "continue")]
+        if isinstance(st, ast.Break):
+            return [([], "break")]
+        if isinstance(st, ast.Return):
+            return [([("stmt", st)], "return")]
+        if isinstance(st, ast.Raise):
+            return [([("stmt", st)], "raise")]
+        if isinstance(st, ast.Try):
+            out = []
+            for t, e in seq(st.body):
+                if e == "fall":
+                    for t2, e2 in seq(st.orelse):
+                        out.append((t + t2, e2))
+                else:
+                    out.append((t, e))
+            for h in st.handlers:
+                for t, e in seq(h.body):
+                    out.append(([("cond", "except %s" % (U(h.type) if h.type is not None else ""), True)] + t, e))
+            if st.finalbody:
+                out2 = []
+                for t, e in out:
+                    for t2, e2 in seq(st.finalbody):
+                        out2.append((t + t2, e if e2 == "fall" else e2))
+                out = out2
+            return out
+        if isinstance(st, (ast.For, ast.While)):
+            out = [([], "fall")]
+            for t, e in seq(st.body):
+                out.append((t, "fall" if e in ("fall", "continue", "break") else e))
+            return out
+        if isinstance(st, (ast.With, ast.AsyncWith)):
+            return [([("stmt", st)] + t, e) for t, e in seq(st.body)]
+        return [([("stmt", st)], "fall")]
+    return seq(stmts)
